@@ -104,19 +104,19 @@ example : (attempt ⟨fun _ => none, true, true⟩ ⟨[10, 11, 12, 13], 0⟩
 /-! ## Over the composed machine (Model/QueueM.lean): bounces under every interleaving -/
 section composed
 open Slimta.QM
-variable {fb : Bool} {pre : List (Nat × Nat)} {rc : Nat → List Rcpt} {nn : Nat → Bool}
+variable {fb : Bool} {pre : List (Nat × Nat)} {rc : Nat → List Rcpt} {nn : Nat → Bool} {att : Nat → Nat}
 
 /-- **No bounce for a null sender, ever**: in every reachable state of the composed machine the list of bounces asked for a
     message with an empty sender is empty — so a bounce that itself fails is dropped. -/
 theorem null_sender_no_bounce_interleaved (hpre : (pre.map (·.1)).Nodup) (hrc : ∀ id ∈ pre.map (·.1), (rc id).Nodup) {q : State}
-    (hr : Reach fb (start pre rc nn) q) (id : Nat) (hn : q.nonNull id = false) : q.bounces id = [] :=
+    (hr : Reach fb (startAt pre rc nn att) q) (id : Nat) (hn : q.nonNull id = false) : q.bounces id = [] :=
   (reach_inv hpre hrc hr).led.quiet id (by simp [hn])
 
 /-- **No recipient is bounced twice, and nobody who did not fail is bounced**, under every interleaving (when bounces are
     produced): over all the bounces asked for a message, a recipient that failed for good is named exactly once, every other
     accepted recipient never. -/
 theorem each_failed_recipient_bounced_once (hpre : (pre.map (·.1)).Nodup) (hrc : ∀ id ∈ pre.map (·.1), (rc id).Nodup) {q : QM.State}
-    (hr : QM.Reach fb (QM.start pre rc nn) q) (id : Nat) (r : List Rcpt) (ho : q.orig id = some r) (x : Rcpt) (hx : x ∈ r)
+    (hr : QM.Reach fb (QM.startAt pre rc nn att) q) (id : Nat) (r : List Rcpt) (ho : q.orig id = some r) (x : Rcpt) (hx : x ∈ r)
     (hb : (fb && q.nonNull id) = true) :
     ((q.bounces id).flatMap (·.rcpts)).count x = if x ∈ (q.failed id).map Prod.fst then 1 else 0 := by
   have h := QM.reach_inv hpre hrc hr
@@ -134,7 +134,7 @@ theorem each_failed_recipient_bounced_once (hpre : (pre.map (·.1)).Nodup) (hrc 
 
 /-- **Whoever failed for good is named in a bounce quoting the reply it failed with**, under every interleaving. -/
 theorem failed_are_bounced_interleaved (hpre : (pre.map (·.1)).Nodup) (hrc : ∀ id ∈ pre.map (·.1), (rc id).Nodup) {q : QM.State}
-    (hr : QM.Reach fb (QM.start pre rc nn) q) (id : Nat) (x : Rcpt) (r : ReplyId) (hx : (x, r) ∈ q.failed id)
+    (hr : QM.Reach fb (QM.startAt pre rc nn att) q) (id : Nat) (x : Rcpt) (r : ReplyId) (hx : (x, r) ∈ q.failed id)
     (hb : (fb && q.nonNull id) = true) : ∃ b ∈ q.bounces id, b.reply = r ∧ x ∈ b.rcpts :=
   (QM.reach_inv hpre hrc hr).led.bounced id x r hx hb
 
